@@ -67,6 +67,11 @@ def EPanic {α : Type} : Except Err α → Prop
 
 variable {κ : Type}
 
+/-- outcome of a sink operation in the two runs: the split run hits a panic branch, or the results are
+equal and, when they are `ok`, the sink states are related -/
+def OpRel {α : Type} (K0 : κ → κ → Prop) (rs rw : κ × Except Err α) : Prop :=
+  EPanic rs.2 ∨ (rw.2 = rs.2 ∧ ((∃ a, rs.2 = .ok a) → K0 rs.1 rw.1))
+
 /-- What the proof needs from the sink: handling corresponding lexemes in `K`-related sink states gives
 equal results and related states (unless the split run hits a panic branch, e.g. a slice out of range);
 and a text lexeme the whole run emits in one piece is equivalent to the two pieces of the split run,
@@ -76,26 +81,18 @@ had text type `tt`. -/
 structure OpsSim (ops : SinkOps κ) (inpS inpW : Bytes) (δ : Nat) (K : Nat → κ → κ → Prop)
     (Loc : κ → Nat → Nat → TextType → Prop) : Prop where
   tag : ∀ pc raw o ks kw, K 0 ks kw →
-    EPanic (ops.handleTag inpS ⟨pc + δ, raw, o⟩ ks).2 ∨
-    ((ops.handleTag inpW ⟨pc, shR δ raw, shTag δ o⟩ kw).2 = (ops.handleTag inpS ⟨pc + δ, raw, o⟩ ks).2 ∧
-     K 0 (ops.handleTag inpS ⟨pc + δ, raw, o⟩ ks).1 (ops.handleTag inpW ⟨pc, shR δ raw, shTag δ o⟩ kw).1)
+    OpRel (K 0) (ops.handleTag inpS ⟨pc + δ, raw, o⟩ ks) (ops.handleTag inpW ⟨pc, shR δ raw, shTag δ o⟩ kw)
   nonTag : ∀ pc raw (o : Option NonTagOutline) ks kw, K 0 ks kw →
-    EPanic (ops.handleNonTag inpS ⟨pc + δ, raw, o⟩ ks).2 ∨
-    ((ops.handleNonTag inpW ⟨pc, shR δ raw, o.map (shNonTag δ)⟩ kw).2 = (ops.handleNonTag inpS ⟨pc + δ, raw, o⟩ ks).2 ∧
-     K 0 (ops.handleNonTag inpS ⟨pc + δ, raw, o⟩ ks).1 (ops.handleNonTag inpW ⟨pc, shR δ raw, o.map (shNonTag δ)⟩ kw).1)
+    OpRel (K 0) (ops.handleNonTag inpS ⟨pc + δ, raw, o⟩ ks) (ops.handleNonTag inpW ⟨pc, shR δ raw, o.map (shNonTag δ)⟩ kw)
   text : ∀ pc a x d tt ks kw, K d ks kw → Loc ks (pc + δ) (a + d - δ) tt → 0 < d → δ ≤ a + d → a + d ≤ x →
-    EPanic (if a + d < x then ops.handleNonTag inpS ⟨pc + δ, ⟨a + d - δ, x - δ⟩, some (.text tt)⟩ ks else (ks, .ok ())).2 ∨
-    ((ops.handleNonTag inpW ⟨pc, ⟨a, x⟩, some (.text tt)⟩ kw).2
-        = (if a + d < x then ops.handleNonTag inpS ⟨pc + δ, ⟨a + d - δ, x - δ⟩, some (.text tt)⟩ ks else (ks, .ok ())).2 ∧
-     K 0 (if a + d < x then ops.handleNonTag inpS ⟨pc + δ, ⟨a + d - δ, x - δ⟩, some (.text tt)⟩ ks else (ks, .ok ())).1
-        (ops.handleNonTag inpW ⟨pc, ⟨a, x⟩, some (.text tt)⟩ kw).1)
+    OpRel (K 0)
+      (if a + d < x then ops.handleNonTag inpS ⟨pc + δ, ⟨a + d - δ, x - δ⟩, some (.text tt)⟩ ks else (ks, .ok ()))
+      (ops.handleNonTag inpW ⟨pc, ⟨a, x⟩, some (.text tt)⟩ kw)
   textOk : ∀ pc raw tt ks,
     EPanic (ops.handleNonTag inpS ⟨pc, raw, some (.text tt)⟩ ks).2 ∨
     (ops.handleNonTag inpS ⟨pc, raw, some (.text tt)⟩ ks).2 = .ok ()
-  startHint : ∀ n ns ks kw, K 0 ks kw →
-    (ops.startTagHint n ns kw).2 = (ops.startTagHint n ns ks).2 ∧ K 0 (ops.startTagHint n ns ks).1 (ops.startTagHint n ns kw).1
-  endHint : ∀ n ks kw, K 0 ks kw →
-    (ops.endTagHint n kw).2 = (ops.endTagHint n ks).2 ∧ K 0 (ops.endTagHint n ks).1 (ops.endTagHint n kw).1
+  startHint : ∀ n ns ks kw, K 0 ks kw → OpRel (K 0) (ops.startTagHint n ns ks) (ops.startTagHint n ns kw)
+  endHint : ∀ n ks kw, K 0 ks kw → OpRel (K 0) (ops.endTagHint n ks) (ops.endTagHint n kw)
 
 /-! ### Lemmas about the relations -/
 
